@@ -156,11 +156,10 @@ def run(ctx: Ctx) -> None:
                 n4 += 1
                 key, cont = norm(s.slice), norm(s.value)
                 ok = False
-                tests = [t for t, pol in guards(s, stop=None) if pol]
-                for t in tests:
-                    for cj in (t.values if isinstance(t, ast.BoolOp) and isinstance(t.op, ast.And) else [t]):
-                        if isinstance(cj, ast.Compare) and isinstance(cj.ops[0], ast.In) and norm(cj.left) == key and norm(cj.comparators[0]) == cont:
-                            ok = True
+                from ..astutil import atomic_guards
+                for cj, pol in atomic_guards(s, stop=None):
+                    if pol and isinstance(cj, ast.Compare) and isinstance(cj.ops[0], ast.In) and norm(cj.left) == key and norm(cj.comparators[0]) == cont:
+                        ok = True
                 ctx.ob("C09.R4", f, s, f"read of auto-vivifying {cont}[{key}] is membership-guarded", ok,
                        "" if ok else f"'{norm(s)}' reads a defaultdict: a missing key is inserted into the node's metadata "
                                      f"(the other parent's tree is modified by a lookup)")
